@@ -114,6 +114,7 @@ static Constraint_System mkcs(const Op& o, unsigned n) { Constraint_System cs; f
 static Generator_System mkgs(const Op& o, unsigned n) { Generator_System gs; for (size_t i = 0; i < o.gs.size(); ++i) gs.insert(mkg(o.gs[i].first, o.gs[i].second, n)); return gs; }
 
 struct Out { std::string exc, obs, rr, rc, plain, wtwin; bool rb; long ri; };
+static bool g_lean = false;   // fault harness: only the call itself, no comparison twins (they are raw temporaries of the harness)
 static const char* DEADP = "{\"alive\":false,\"n\":0,\"topo\":\"C\",\"H\":[],\"V\":[],\"st\":\"\",\"ok\":true}";
 // an equal object through a different history (style selects which)
 static Polyhedron* rebuilt(const Slot& s, int style) {
@@ -234,6 +235,7 @@ static void exec_op(const Op& o, Slot* S, Slot& d, Slot& s, Out& out) {
         else {
           // the widenings require the argument to be contained in the receiver: z = receiver joined with the argument
           d.p->poly_hull_assign(*s.p);
+          if (g_lean) { widen_call(op, d.p, *s.p, cs, tp); ri = tk; return; }
           // (1) the plain widening of the same pair, without tokens and limiting constraints, on a copy
           { Slot t; t.p = clone(d); t.nnc = d.nnc; Constraint_System none; widen_call(plain_of(op), t.p, *s.p, none, 0); out.plain = desc(t); delete t.p; }
           // (2) the same call on arguments rebuilt through a different history
